@@ -7,6 +7,10 @@ HARNESSES = {
     "asend": dict(sources=SRC, flavour="asan", mode="C02", timeout=30),
     "default": dict(name="asend", sources=SRC, flavour="asan", mode="C02", timeout=30),
     # the real-thread runs again under ThreadSanitizer (thorough tier): a data race on the send queue is a crash observation
+    # producers and the driver under the deterministic cooperative scheduler: every lock/unlock of sendQMtx, stepMtx,
+    # pauseMtx and the pool mutex is a schedule point (systematic exploration of the empty/refill race)
+    "asend_sched": dict(name="async_send_sched", sources=["scen/async_send_sched.cpp", "sched/sched.cpp"], flavour="asan",
+                        mode="C02", timeout=40),
     "asend_tsan": dict(name="asend_tsan", sources=SRC, flavour="tsan", mode="C02", timeout=30,
                        env={"TSAN_OPTIONS": "exitcode=66:halt_on_error=1:report_signal_unsafe=0"}),
 }
@@ -14,7 +18,9 @@ RULE = ("sequential histories of Send(buffer of size s) / Step(0) under a send s
         "peer-drain / peer-close / destroy on one SocketTcpAsync over loopback, s in {0,1,2,3,7,64,1000,5000} plus "
         "9k-70k buffers against a 4.6 kB SO_SNDBUF (real partial writes), send pool N in {1,2,3,#sends}; plus real-thread "
         "runs (1-4 producer threads x 1-6 buffers + a Run() thread, scripted short writes) checked against the property only. "
-        "thorough adds every script of length <= 6 over {pass, short 1, short 3, fail} for 3 queued buffers. "
+        "thorough adds every script of length <= 6 over {pass, short 1, short 3, fail} for 3 queued buffers. Plus 1-3 producer threads and the "
+        "driver under the deterministic cooperative scheduler (every mutex operation, poll and pipe operation is a schedule point; PRNG "
+        "schedules, thorough: all choice prefixes of depth 9), a lost transmission shows up as 'all parked, none enabled'. "
         "non-trivial = at least one partial write or failed send happened and at least two buffers were queued at once, or an mt run; "
         "distinct op sequences.")
 ASSUMPTIONS = [
@@ -115,6 +121,16 @@ def gen(rng, tier):
                       ["drain"] + ["step pass"] * 9 + ["drain", "destroy"]
                 cases.append(("asend", "x%d" % k, ops))
                 k += 1
+    # scheduled multi-producer runs (PRNG schedules; thorough: plus every choice prefix of depth 9 for 2 producers x 1 buffer)
+    for k in range(300 if tier == "quick" else 20000):
+        th = rng.choice([1, 2, 2, 3])
+        per = rng.choice([1, 1, 2, 3])
+        cases.append(("asend_sched", "s%d" % k, ["mt %d %d %d %d %d" % (th, per, rng.choice([0, 1, 5, 40]),
+                                                                      rng.choice([0, 0, 2, 5, 9]), rng.randrange(1, 10**9))]))
+    if tier == "thorough":
+        import itertools
+        for i, pref in enumerate(itertools.product(range(3), repeat=9)):
+            cases.append(("asend_sched", "sx%d" % i, ["mt 2 1 5 2 7 " + " ".join(str(c) for c in pref)]))
     return cases
 
 
